@@ -88,11 +88,13 @@ func ToURL(ma multiaddr.Multiaddr) (*url.URL, error) {
 	}
 
 	path := ""
-	pb, ok := pm[multiaddr.P_HTTP_PATH]
-	if !ok {
-		pb, ok = pm[oldProtoHTTPath.Code]
-	}
-	if ok {
+	if pb, ok := pm[multiaddr.P_HTTP_PATH]; ok {
+		// The http-path component renders its value with url.QueryEscape.
+		path, err = url.QueryUnescape(pb)
+		if err != nil {
+			path = ""
+		}
+	} else if pb, ok = pm[oldProtoHTTPath.Code]; ok {
 		path, err = url.PathUnescape(pb)
 		if err != nil {
 			path = ""
@@ -145,7 +147,7 @@ func FromURL(u *url.URL) (multiaddr.Multiaddr, error) {
 
 	joint := multiaddr.Join(*addr, http)
 	if u.Path != "" {
-		httppath, err := multiaddr.NewComponent(multiaddr.ProtocolWithCode(multiaddr.P_HTTP_PATH).Name, url.PathEscape(u.Path))
+		httppath, err := multiaddr.NewComponent(multiaddr.ProtocolWithCode(multiaddr.P_HTTP_PATH).Name, url.QueryEscape(u.Path))
 		if err != nil {
 			return nil, err
 		}
